@@ -18,7 +18,7 @@ claimed["C18"] = (
 claimed["C19"] = (
     "exploration",
     "runtime monitor over generator subprocess runs: exit status, go/parser re-parse against the expected struct/field multiset, byte-identity across repeated runs",
-    "The generator binary is rebuilt from the working tree and run 6x per (generated YAML, argument form) in a private directory; failures, unparseable output, wrong struct/field sets and run-to-run differences (map iteration order) are violations. Held on the generated inputs; one known finding (type_id map).",
+    "The generator binary is rebuilt from the working tree and run 6x per (generated YAML, argument form) in a private directory; failures, unparseable output, wrong struct/field sets and run-to-run differences (map iteration order) are violations. Held on the generated inputs; one known finding (type_id map). Odd runs regenerate over an existing, longer output file.",
     "identifiers are ASCII without underscores and unique ignoring case (title-casing is delegated to x/text); Go keywords are not identifiers and are not generated as names",
     "DESIGN.md §3 C19",
 )
@@ -38,15 +38,15 @@ claimed["C05"] = (
 )
 claimed["C07"] = (
     "fault_enumeration",
-    "scripted hostile client against the real RunATPServer under process supervision + quiescence deadlock monitor + offline checker of the tapped output (terminal messages per accepted run)",
-    "Directed scripts put every production of a client-behaviour grammar (malformed envelopes, undecodable CBOR, unknown step/signal/message IDs, duplicate run IDs, signals for unstarted runs, traffic after client-done) right after a valid (finished / still running / panicking) work-start; random scripts add mixtures. Each script is delivered whole (burst and one message per quiescent point), with gated steps released before or after end of input, with the output closed early, and cut at EVERY byte offset. A fatal crash of the worker, a recovered panic, a quiescent state in which RunATPServer has not returned, or a count of terminal messages per run that differs from the number of accepted work-starts (computed from the delivered bytes by an independent decoder) is a violation.",
+    "scripted hostile client against the real RunATPServer under process supervision + quiescence deadlock monitor + offline checker of the tapped output (terminal messages per accepted run); Go race detector on the same scripts",
+    "Directed scripts put every production of a client-behaviour grammar (malformed envelopes, undecodable CBOR, unknown step/signal/message IDs, duplicate run IDs, signals for unstarted runs, traffic after client-done) right after a valid (finished / still running / panicking) work-start; random scripts add mixtures. Each script is delivered whole (burst and one message per quiescent point), with gated steps released before or after end of input, with the output closed early, and cut at EVERY byte offset. A fatal crash of the worker, a recovered panic, a quiescent state in which RunATPServer has not returned, or a count of terminal messages per run that differs from the number of accepted work-starts (computed from the delivered bytes by an independent decoder) is a violation. Every second session runs on stdin/stdout ends with os.File close semantics (a second Close is an error); the whole-script deliveries and a sample of the cuts are repeated in a -race build, where every race report with an SDK frame is a violation.",
     "accepted = well-formed envelope with non-empty run and step ID delivered before client-done / first undecodable item / cut; output is a never-blocking pipe unless the case closes it; trusts fxamacker/cbor for the independent parse",
     "DESIGN.md §3 C07",
 )
 claimed["C08"] = (
     "fault_enumeration",
     "transcript replay by a request-gated fake server with stream faults at every byte offset; quiescence monitor for hangs; intact-delivery oracle from message boundaries",
-    "Six server transcripts (v3 and v1; serial, concurrent with emitted signals and errors, server-fatal midway, trailing messages) and ten hellos that must be refused are replayed against the real client; the server->client stream is cut with EOF / read error / garbage tail at every offset of the runtime part and (thorough) of the hello, the write side fails independently from write #j. A recovered or fatal panic, a call that has not returned when every goroutine is blocked, or a success whose work-done (hello) did not end before the cut, or that differs from the transcript, is a violation.",
+    "Six server transcripts (v3 and v1; serial, concurrent with emitted signals and errors, server-fatal midway, trailing messages) and ten hellos that must be refused are replayed against the real client; the server->client stream is cut with EOF / read error / garbage tail at every offset of the runtime part and (thorough) of the hello, the write side fails independently from write #j. A recovered or fatal panic, a call that has not returned when every goroutine is blocked, or a success whose work-done (hello) did not end before the cut, or that differs from the transcript, is a violation. A single flipped byte (5 masks) inside one runtime message, after which the stream ends, is judged for panics, hangs and return counts only.",
     "a broken client->server stream is modelled as the server seeing end of input and closing its output; in-payload corruption is not demanded (only an all-0xff garbage tail makes 'not intact' decidable); the SDK's 5 s close timeout is waited for in real time",
     "DESIGN.md §3 C08",
 )
@@ -81,7 +81,7 @@ claimed["C03"] = (
 claimed["C17"] = (
     "exploration",
     "single-fault injection into valid inputs with the path known by construction; runtime check of errors.As(*ConstraintError).Path",
-    "Generated nested schemas (map-based objects, lists, maps, one-of, references, scopes) with an input that both the reference and the SDK accept; every leaf, collection, required property and presence rule on the way is corrupted one at a time (wrong type, below min, above max, pattern miss, not in enum, undeclared key, missing required property, a violated required_if / required_if_not / conflicts rule with exactly one violating property). The error of Unserialize and of Validate (on native-form trees) must be a ConstraintError whose path, without one-of markers and decoration, equals the injector's path; undeclared keys must be named in the message. The evidence holds the (corruption kind x innermost container) matrix.",
+    "Generated nested schemas (map-based objects, lists, maps, one-of, references, scopes) with an input that both the reference and the SDK accept; every leaf, collection, required property and presence rule on the way is corrupted one at a time (wrong type, below min, above max, pattern miss, not in enum, undeclared key, missing required property, a violated required_if / required_if_not / conflicts rule with exactly one violating property). The error of Unserialize and of Validate (on native-form trees) must be a ConstraintError whose path, without one-of markers and decoration, equals the injector's path; undeclared keys must be named in the message. The evidence holds the (corruption kind x innermost container) matrix. Map entries are also addressed by keys written differently from their canonical form and by keys of the wrong type; one case in five breaks one scalar leaf of a struct-mapped Go value and demands the path in property IDs from Validate.",
     "struct-mapped objects are not injected into; corrupted inputs that the reference does not classify as must-reject are skipped",
     "DESIGN.md §3 C17",
 )
@@ -102,14 +102,14 @@ claimed["C12"] = (
 claimed["C14"] = (
     "exploration",
     "runtime metamorphic monitor: scope with references vs the same scope with references mechanically inlined by the harness' own lexical resolution; link-state monitor over references enumerated through public accessors around every ApplyNamespace; supervised recursion probes",
-    "Generated non-recursive scope trees (nested scopes with colliding IDs, references under properties/lists/maps/one-ofs, up to two external namespaces applied in every order, external objects shadowing local IDs), the scope rebuilt from its own description, and the inlined comparison schema are run on the same inputs: verdicts and unserialized values must coincide and agree with the reference interpreter. Before, between and after the ApplyNamespace calls ValidateReferences()==nil must hold exactly when all enumerated references report ObjectReady(), and references of other namespaces must keep state and target. Hand-written recursive / mutually recursive / rho-shaped scopes are driven with finite inputs of depth 1..500 and non-map values under process supervision.",
+    "Generated non-recursive scope trees (nested scopes with colliding IDs, references under properties/lists/maps/one-ofs, up to two external namespaces applied in every order, external objects shadowing local IDs), the scope rebuilt from its own description, and the inlined comparison schema are run on the same inputs: verdicts and unserialized values must coincide and agree with the reference interpreter. Before, between and after the ApplyNamespace calls ValidateReferences()==nil must hold exactly when all enumerated references report ObjectReady(), and references of other namespaces must keep state and target. Hand-written recursive / mutually recursive / rho-shaped scopes are driven with finite inputs of depth 1..500 and non-map values under process supervision. A hand-written finite scope must be constructible, and a generated scope must be whenever its inlined equivalent is.",
     "inlining is only defined for non-recursive graphs; namespaced references are not generated directly under a one-of; external namespace objects have no references of their own",
     "DESIGN.md §3 C14",
 )
 claimed["C09"] = (
     "exploration",
     "runtime metamorphic monitor: describe -> rebuild -> describe fixed point over direct / CBOR / YAML legs and a real ATP hello; behavioural differential between original and rebuilt schema on generated inputs",
-    "Generated scopes using every feature the meta-schema has an entry for, a one-per-constructor matrix for the rest, and whole plugin schemas (steps, several outputs, signal handlers and emitters with their own data scopes) are described with SelfSerialize; the description is passed directly, through CBOR and through YAML into UnserializeScope (+ApplySelf) / UnserializeSchema, and through RunATPServer <-> Client.ReadSchema over chunking pipes; the rebuilt schema must describe itself identically and accept / reject / (map-based) unserialize generated inputs like the original, for every step input, output and signal data schema. Nine known findings: constructors whose schemas cannot be described.",
+    "Generated scopes using every feature the meta-schema has an entry for, a one-per-constructor matrix for the rest, and whole plugin schemas (steps, several outputs, signal handlers and emitters with their own data scopes) are described with SelfSerialize; the description is passed directly, through CBOR and through YAML into UnserializeScope (+ApplySelf) / UnserializeSchema, and through RunATPServer <-> Client.ReadSchema over chunking pipes; the rebuilt schema must describe itself identically and accept / reject / (map-based) unserialize generated inputs like the original, for every step input, output and signal data schema. Nine known findings: constructors whose schemas cannot be described. A tenth: a struct-mapped parent materialises an absent by-value sub-object, the rebuilt map-based schema does not.",
     "rebuilding a scope includes ApplySelf; struct-mapped objects are rebuilt map-based, so only their acceptance is compared",
     "DESIGN.md §3 C09",
 )
@@ -123,14 +123,14 @@ claimed["C10"] = (
 claimed["C11"] = (
     "exploration",
     "recording handlers + reference-interpreter oracle over generated plugins; controlled schedule exploration (yield-point overlay of schema/step.go and schema/schema.go with quiescence-driven release) and the Go race detector for the once-per-run initialisation",
-    "Generated plugins (1-3 steps, generated input / output / signal-data scopes, several outputs, several signal handlers, a token-issuing initialiser) are called through CallableSchema.CallStep / CallSignal with valid, alternately represented, perturbed, property-dropped and hostile inputs, existing and unknown step / signal IDs, and handlers returning declared+conforming, declared+non-conforming or undeclared outputs. An independent three-valued interpreter of the schema decides whether the handler must have run (exactly once, with exactly the denoted value) and which error class must come back. Then the step call and the signal calls of the same and of different run IDs are issued one after the other in shuffled orders, together from up to 16 goroutines, with every reached statement of schema/step.go / schema.go paused singly (overlay build), and under -race: initialiser calls == run IDs, one step-data object per run, none shared across runs, no deadlock (stop-the-world goroutine snapshot), no panic, no race report.",
+    "Generated plugins (1-3 steps, generated input / output / signal-data scopes, several outputs, several signal handlers, a token-issuing initialiser) are called through CallableSchema.CallStep / CallSignal with valid, alternately represented, perturbed, property-dropped and hostile inputs, existing and unknown step / signal IDs, and handlers returning declared+conforming, declared+non-conforming or undeclared outputs. An independent three-valued interpreter of the schema decides whether the handler must have run (exactly once, with exactly the denoted value) and which error class must come back. Then the step call and the signal calls of the same and of different run IDs are issued one after the other in shuffled orders, together from up to 16 goroutines, with every reached statement of schema/step.go / schema.go paused singly (overlay build), and under -race: initialiser calls == run IDs, one step-data object per run, none shared across runs, no deadlock (stop-the-world goroutine snapshot), no panic, no race report. First-use rounds run on fresh twin plugins; the returned data is compared with the output schema's own Serialize of the handler's value; a rendezvous step (the signal handler hands a value to its running step over an unbuffered channel, both arrival orders) must complete.",
     "inputs whose acceptance the reference leaves unspecified only get the 'at most once' check; handler argument identity is judged on values (handlers take `any`); pauses are single, at statement granularity; the context value is how handler invocations are attributed to run IDs",
     "DESIGN.md §3 C11",
 )
 claimed["C13"] = (
     "exploration",
     "Go race detector over first-use races of fresh schema instances, plus a concurrent-equals-isolated result oracle; package-level values raced in a child process per trial",
-    "Per trial two equal instances exist: one is used sequentially (the 'in isolation' outcome of every call, taken twice), the other is touched for the first time by 2..16 goroutines released together, each running the calls in its own shuffled order. Instances: generated shapes built with freshly constructed unit definitions; scopes rebuilt by UnserializeScope; generated callable plugins (CallStep / CallSignal with per-call and shared run IDs, plus rounds in which all goroutines use one new run ID at once); plugin schemas rebuilt by UnserializeSchema after CBOR; and the package-level unit definitions and meta-schemas, for which every trial is a child process whose very first SDK calls are the racing ones (compared with a sequential child). The whole workload runs in a plain and in a -race build; every race report (keyed by the two SDK functions), every outcome that differs from the isolated one, every runtime fatal (concurrent map access) and every extra initialiser run is a violation.",
+    "Per trial two equal instances exist: one is used sequentially (the 'in isolation' outcome of every call, taken twice), the other is touched for the first time by 2..16 goroutines released together, each running the calls in its own shuffled order. Instances: generated shapes built with freshly constructed unit definitions; scopes rebuilt by UnserializeScope; generated callable plugins (CallStep / CallSignal with per-call and shared run IDs, plus rounds in which all goroutines use one new run ID at once); plugin schemas rebuilt by UnserializeSchema after CBOR; and the package-level unit definitions and meta-schemas, for which every trial is a child process whose very first SDK calls are the racing ones (compared with a sequential child). The whole workload runs in a plain and in a -race build; every race report (keyed by the two SDK functions), every outcome that differs from the isolated one, every runtime fatal (concurrent map access) and every extra initialiser run is a violation. A step whose signal handler hands a value to the running step (rendezvous, both arrival orders, quiescence monitor) must complete: a lock held across a handler is invisible to the race detector.",
     "the race detector only sees the interleavings that happen: evidence reports trials, goroutine counts and how many distinct first operations collided; errors are compared by presence; cross-instance ValidateCompatibility is skipped for recursive shapes (C15 known finding)",
     "DESIGN.md §3 C13",
 )
